@@ -1220,10 +1220,10 @@ func (x *Exec) checkInvariants(fr *Frame, h *ssa.BasicBlock, st *State, when str
 		t := x.evalGhost(fr, gf, x.invArgs(fr, st, ls), x.invArgs(fr, fr.entry, ls), st, fr.entry)
 		x.oblige(fr, "invariant@"+when, fmt.Sprintf("loop %d inv %d: %s", n, i+1, cl.Orig), st, t, h.Instrs[0].Pos())
 	}
-	if when == "back" {
+	if when == "back" && x.dry == 0 {
 		head := fr.loopHead[h]
 		if head == nil {
-			head = fr.entry // dry run only: its obligations are discarded
+			head = fr.entry
 		}
 		for i, cl := range ls.Steps {
 			if skipClause(cl, x.eng) {
